@@ -930,6 +930,35 @@ func ruleC20Validator(c *Ctx) {
 	}
 	c.Check(found && guarded, "C20.VALIDATOR", "boltz.publicSymbolValidator.VisitSymbol: latch", p.Pos(fn.Pos()),
 		"records an error exactly when IsPublicSymbol(symbol) is false, keeping the first error", "the validator does not record an error under !IsPublicSymbol(symbol) && err == nil")
+	// ... and no other method of the validator overwrites a recorded error: every store into the error field
+	// sits where the field is known to be nil (the first error wins), or stores a value known not to be nil
+	for _, other := range c.prodFuncs("boltz") {
+		if other == fn || other.Signature.Recv() == nil || namedOf(other.Signature.Recv().Type()) != val || len(other.Params) == 0 {
+			continue
+		}
+		var ofi *FactInfo
+		for _, b := range other.Blocks {
+			for _, in := range b.Instrs {
+				st, isSt := in.(*ssa.Store)
+				if !isSt {
+					continue
+				}
+				f, base := fieldOfAddr(st.Addr)
+				if !sameVar(f, errFld) || base != ssa.Value(other.Params[0]) {
+					continue
+				}
+				if ofi == nil {
+					ofi = factsOf(other)
+				}
+				firstWins := ofi.HoldsWhere(b, func(ft Fact) bool {
+					ff, fb := loadedField(ft.V)
+					return ft.Kind == "nonnil" && !ft.Pol && sameVar(ff, errFld) && fb == ssa.Value(other.Params[0])
+				})
+				c.Analysed(FnName(other))
+				c.Check(firstWins, "C20.VALIDATOR", FnName(other)+": writes the validator's error", p.Pos(st.Pos()), "the error field is written only where no error is recorded yet", "another method of the validator stores into the error field without testing that it is still nil: a later visit (a sort field that is fine) wipes the unknown-symbol error recorded earlier, so a query using a non-public symbol is accepted")
+			}
+		}
+	}
 	// the rejecting path must be reachable whenever the symbol is not public: no return before the test
 	early := !noPathAvoiding(fn, isPublicTest, func(from, to *ssa.BasicBlock) bool {
 		for ft := range fi.edgeFacts(from, to) {
